@@ -319,8 +319,7 @@ class SX:
                 return z3.Or(z3.Select(v.term, True), z3.Select(v.term, False))
             return self.set_nonempty(v, st)
         if isinstance(t, V.Dict):
-            x = z3.Const(fresh_name("dx"), t.k.sort())
-            return z3.Exists([x], z3.Select(t.dom(v.term), x))
+            return t.size(v.term) > 0
         if isinstance(t, V.Rec):
             h = self.reg.hooks.get(("truthy", t.rname))
             if h is not None:
@@ -470,6 +469,18 @@ class SX:
             t = V.Tuple(*[i.ty for i in items])
             return Val(t, t.mk(*[i.term for i in items]))
         self.unsupported("cannot lift concrete %r" % (x,))
+
+    def coerce_str(self, v, st):
+        """a value used as text (str(x) view): itself for str, the string payload for a JSON string, else opaque"""
+        v = self.deref(self.lift(v) if isinstance(v, Conc) else v, st)
+        if isinstance(v.ty, V._Str):
+            return v
+        if isinstance(v.ty, V._Json):
+            j = self.B.J()
+            r = self.fresh(V.Str, "jtext", st)
+            st.assume(z3.Implies(j["kind"](v.term) == self.B.JSTR, r.term == j["str"](v.term)))
+            return r
+        return self.fresh(V.Str, "text", st)
 
     def as_opt(self, v, opt_ty):
         """coerce v (None or inner) into Opt type"""
